@@ -12,13 +12,16 @@ vars == << l, bad, done >>
 TraitOf(j) == [code |-> j.code, pay |-> j.pay, opts |-> j.opts]
 
 JudgeViews(e) ==
-  LET m == MsgOf(e.st) IN
+  LET m == MsgOf(e.st)
+      exp == [AllViews(m) EXCEPT !.method = GetMethodF(m, e.cform), !.status = GetStatusF(m, e.cform)] IN
   IF e.panicked THEN {"C19"}
-  ELSE IF e.views = AllViews(m) /\ TraitOf(e.t02) = TraitView(m) /\ TraitOf(e.t03) = TraitView(m) THEN {} ELSE {"C19"}
+  ELSE IF e.views = exp /\ TraitOf(e.t02) = TraitView(m) /\ TraitOf(e.t03) = TraitView(m)
+          /\ e.cform \in CodeForms /\ e.t02.cform = e.cform /\ e.t03.cform = e.cform THEN {} ELSE {"C19"}
 
 JudgeSet(e) ==
   IF e.panicked THEN {"C19"}
-  ELSE IF MsgOf(e.post) = ApplyV(MsgOf(e.pre), e) /\ e.post.tkl = Len(e.pre.tok) THEN {} ELSE {"C19"}
+  ELSE IF MsgOf(e.post) = ApplyV(MsgOf(e.pre), e) /\ e.post.tkl = Len(e.pre.tok)
+          /\ e.postform = FormAfter(e.preform, e) THEN {} ELSE {"C19"}
 
 \* a message copied through the generic interface: same code, options in ascending number order, payload
 JudgeCopy(e) ==
@@ -27,6 +30,7 @@ JudgeCopy(e) ==
   IF e.panicked THEN {"C19"}
   ELSE IF d.code = s.code /\ d.pay = s.pay /\ d.opts = DropEmpty(s.opts)
           /\ FlatOpts(d.opts) = FlatOpts(s.opts)
+          /\ e.dstform = (IF e.api \in { "direct02", "direct03" } THEN e.srcform ELSE "canon")
           /\ d.ver = DefaultMsg.ver /\ d.typ = DefaultMsg.typ /\ d.mid = DefaultMsg.mid /\ d.tok = DefaultMsg.tok
        THEN {} ELSE {"C19"}
 
